@@ -260,6 +260,7 @@ func runC02(p *Program, r *Report) {
 	checkTableAgreement(p, r, "C02")
 	checkNoRawConversion(p, r, "C02")
 	checkEncoders(p, r, "C02.wire")
+	checkOnceSingle(p, r, "C02.wire")
 	r.Floor("C02.quant", 9)
 	r.Floor("C02.curve", 10)
 	r.Floor("C02.table-agreement", 19)
@@ -284,6 +285,19 @@ func runC14(p *Program, r *Report) {
 	// (i/255 = 257i/65535, each one correctly rounded division)
 	checkBuilder(p, r, "C14.sample", p.Func("linear/lut", "Build8BitToLinear"), 256, "")
 	checkBuilder(p, r, "C14.sample", p.Func("linear/lut", "Build16BitToLinear"), 65536, "")
+	// "linearising or encoding any pixel": the image converters hand every pixel, alpha
+	// included, to the per-colour function and store its result unchanged — rule set C10,
+	// re-evaluated on the same tree as a premise
+	sub := NewReport("C10", "other")
+	runC10(p, sub)
+	for _, ob := range sub.Obls {
+		ob.Rule = "C14.premise-" + ob.Rule
+		ob.Key = "C14.premise-" + ob.Key
+		r.Obls = append(r.Obls, ob)
+	}
+	for f := range sub.Functions {
+		r.SawFn(f)
+	}
 	r.Floor("C14.sample", 2)
 	r.Floor("C14.dec", 50)
 	r.Floor("C14.enc", 50)
